@@ -54,6 +54,16 @@ CLAIMS = {
         design="6 C20",
         technique="explicit TLA+ spec + TLC model checking; TLC-generated behaviours replayed on the code in child processes and judged by TLC",
     ),
+    "C03": dict(
+        spec="FsSession.tla / FsSessionGen.tla / FsSessionJudge.tla",
+        text="TLC model-checks the session-context specification (Agree: reported = effective = CURRENT_*; ResolveFQ; Frame; "
+        "90105/90106 exactly when context is missing; failing statements change nothing) over 2 databases x 2 schemas x 2 "
+        "connections, generates transition covers, a bounded path cover and progress-biased walks, replays them on two real "
+        "connections (conn.database/schema, CURRENT_*(), marker-row probes at three qualification levels, raw catalog after every "
+        "step, for both connections) and judges every step with TLC; as-built aftermath of the two recorded deviations is modelled.",
+        design="6 C03",
+        technique="explicit TLA+ spec + TLC model checking; TLC-generated histories replayed on the code and judged by TLC (trace validation)",
+    ),
 }
 
 
